@@ -237,6 +237,24 @@ def r1_exact_placement(repo=None, rid="C13.R1"):
                         "sample's exact time selects" % v, line=getattr(tr.why.get(v), "lineno", rf.lineno))
     else:
         r.ok("%s:%s %s" % (m.rel, rf.lineno, qr), "the range bounds and everything derived from them are free of floating-point taint")
+    # the reader's queries hand only exactly chosen files to _add_metadata (no float-derived time in the choice)
+    for name, fq in m.methods(R).items():
+        calls = [c for c in pyfront.walk_no_nested(fq) if isinstance(c, ast.Call) and pyfront.call_name(c) == "self._add_metadata"]
+        if not calls:
+            continue
+        tq = pytaint.Taint(fq, float_attrs=FLOAT_ATTRS)
+        for c in calls:
+            bad = [a for a in c.args[1:2] if tq.expr(a) == "F"]
+            if bad:
+                v = bad[0]
+                why = tq.why.get(v.id) if isinstance(v, ast.Name) else None
+                r.violation(m.rel, "%s.%s" % (R, name), "_add_metadata(.., %s, ..) where %s derives from %s" % (
+                            norm(ast.unparse(v)), norm(ast.unparse(v)), norm(ast.unparse(why))[:80] if why is not None else "a float"),
+                            "the file handed to the reader is chosen through floating-point time arithmetic, not through the exact "
+                            "integer placement: for non-integer sample rates a sample on a file boundary is looked for in the wrong file",
+                            line=c.lineno)
+            else:
+                r.ok("%s:%s %s.%s" % (m.rel, c.lineno, R, name), "file argument of _add_metadata is free of floating-point taint")
     r.guard(2)
     return r
 
